@@ -17,11 +17,14 @@ ID = 'C04'
 IMPORTS = ['Unify.Unify', 'Engine.World', 'Engine.RunWorld']
 THEOREMS = ['C04_init_world_inv', 'C04_step_local', 'C04_step_noninterference', 'C04_interleave_alone',
             'C04_interleave_alone_init', 'C04_interleaved_eq_alone', 'C04_merges_indistinguishable', 'C04_every_merge', 'C04_back_to_back_is_merge', 'C04_merge_eq_back_to_back',
+            'C04_same_engine_slots_K', 'C04_slots_alone_K', 'C04_step_footprint_agree', 'C04_step_footprint_writes',
             'C04_same_engine_slots', 'C04_slots_alone', 'C04_slots_none', 'C04_slots_start', 'C04_reach_invariant', 'C04_reach_sinv',
-            'C04_disjoint_queries_alone', 'C04_world_disjoint_queries_alone', 'C04_same_engine_disjoint', 'C04_unify_frame']
+            'C04_disjoint_queries_alone_K', 'C04_disjoint_queries_alone', 'C04_disjoint_queries_alone_writes_refuted',
+            'C04_world_disjoint_queries_alone_K', 'C04_world_disjoint_queries_alone', 'C04_unify_frame']
 RULE = ('2-3 engines, histories of 6-24 operations each over {atom, assert_fact/assertz/asserta (3 API variants), retract/'
         'retractall (4 API variants), register_function (fixed/variadic), load_script_from_string of compiled Prolog '
-        '(overwrite and chained; the same text in several engines, and different texts defining the same names), clear, '
+        '(overwrite and chained; the same text in several engines, and different texts defining the same names; in half of the '
+        'cases rule bodies call asserta/assertz/retract/retractall and queries are started on these builtins themselves), clear, '
         'start/next/close/drop/drain of query generators in 3 slots, peek at variables between steps}, merged by a random '
         'schedule with bursts; every '
         'history ends with read-back queries of all predicates. Non-trivial: two engines hold different contents under '
@@ -31,7 +34,8 @@ TRUSTED_BASE = [
     'Coq 8.16.1 kernel (coqc); vm_compute for the in-Coq evaluation of the model on every case',
     'no axioms: all C04 theorems are closed under the global context',
     'hand-written model Engine/World.v of YP.__init__/clear/atom/assert_fact/asserta/assertz/retract/retractall/'
-    'register_function/load_script_from_string/query/match_dynamic/Answer.match and of suspended query generators; '
+    'register_function/load_script_from_string/query/match_dynamic/Answer.match, of suspended query generators and of the '
+    'builtins asserta/assertz/retract/retractall called from clause bodies; '
     'tied to /repo by this differential run (not by translation)',
     'compiled clauses are modelled as (head arguments, list of goals): the translation of Prolog text to Python text is '
     'the business of C01/C11; here the compiler is only used to produce the scripts that are loaded',
@@ -42,7 +46,9 @@ TRUSTED_BASE = [
     'harness: generators, drivers, canonicalisation (harness/props/c04.py), parser of printed observations',
 ]
 ASSUMPTIONS = ['engines do not share Variable objects; simultaneously suspended queries of one engine use disjoint variables',
-               'queries are read-only (clause bodies call facts, rules and =); database-writing goals inside bodies belong to C14',
+               'within one engine, a query is only promised to be independent of the writes other suspended queries make to keys '
+               'of the fact store it does not touch (theorem C04_same_engine_slots_K; refuted otherwise); the same-engine oracle is '
+               'applied under the static counterpart of that condition',
                'cases in which a match needs a cyclic term (model error code 2) are unspecified and skipped',
                'evaluate_bounded (interpreter-wide recursion limit) is outside the statement']
 CASE_TIMEOUT = 120
@@ -382,10 +388,48 @@ def _vars_of(t, acc):
             _vars_of(a, acc)
     return acc
 
-def slots_independent(hist):
-    """the slots of this history in which queries run, if the history qualifies for the same-engine oracle: at least two
-    slots, the queries of different slots have no variable in common, and no assert / retract mentions a query variable
-    (then the only way one query could influence another is the interference the property excludes)"""
+def slot_footprints(case, hist):
+    """per slot: (keys of the fact store its queries can touch, keys they can write), computed statically from the scripts this
+    history loads: the closure of the goals reachable from the started goals through the loaded rule definitions; a database
+    builtin with a literal argument name(args) writes (and touches) the key (name, arity); '*' stands for a key that is not known
+    statically (the argument is a variable).  Over-approximation of the logs of the model (World.ev)."""
+    defs = {}
+    for op in hist:
+        if op[0] == 'load':
+            for name, ar, clauses in case['scripts'][op[2]]:
+                defs.setdefault((name, ar), []).extend(body for _, body in clauses)
+    def goal(name, args, T, W, seen):
+        key = (name, len(args))
+        T.add(key)
+        if name in DB_BUILTINS and len(args) == 1:
+            t = args[0]
+            k = (t[1], len(t[2])) if t[0] == 'f' else (t[1], 0) if t[0] == 'a' else '*' if t[0] == 'v' else None
+            if k is not None:
+                T.add(k)
+                W.add(k)
+        if key in seen:
+            return
+        seen.add(key)
+        for body in defs.get(key, []):
+            for g in body:
+                goal(g[0], g[1], T, W, seen)
+    per = {}
+    for op in hist:
+        if op[0] == 'start':
+            T, W = per.setdefault(op[1], (set(), set()))
+            goal(op[2], op[3], T, W, set())
+    return per
+
+def _meets(touched, written):
+    if not written or not touched:
+        return False
+    return '*' in written or '*' in touched or bool(touched & written)
+
+def slots_independent(case, hist):
+    """the slots of this history that qualify for the same-engine oracle: at least two slots, the queries of different slots
+    have no variable in common, no assert / retract of the caller mentions a query variable, and (footprints, cf. the
+    theorem C04_same_engine_slots_K) no query of another slot can write a key of the fact store that a query of this slot
+    can touch (then the only way another query could influence this one is the interference the property excludes)"""
     per = {}
     for op in hist:
         if op[0] == 'start':
@@ -405,7 +449,8 @@ def slots_independent(hist):
         for a in args:
             if _vars_of(a, set()) & allq:
                 return []
-    return qs
+    foot = slot_footprints(case, hist)
+    return [q for q in qs if not any(_meets(foot[q][0], foot[p][1]) for p in qs if p != q)]
 
 def run_slots_alone(case):
     """for every qualifying engine and each of its slots q: the same history in which the generators of the other slots
@@ -413,7 +458,7 @@ def run_slots_alone(case):
     out = []
     for e in range(case['neng']):
         hist = case['hist'][e]
-        for q in slots_independent(hist):
+        for q in slots_independent(case, hist):
             d = EngineDriver(case, e)
             seen = []
             for k, op in enumerate(hist):
@@ -562,6 +607,7 @@ def _model_errors(mo):
     return codes
 
 MODEL_SKIPPED = [0]
+MODEL_CYCLIC = [0]
 
 def _first_diff(a, b):
     for e, (x, y) in enumerate(zip(a, b)):
@@ -577,6 +623,7 @@ def compare(case, io, mo):
         return None
     codes = _model_errors(mo)
     if 2 in codes or 9 in codes:
+        MODEL_CYCLIC[0] += 1
         return None            # cyclic match: unspecified
     if codes:
         # the model ran out of fuel (code 100) or met something outside it: the case is not compared with the model
@@ -655,9 +702,31 @@ def rand_open(rng, vars_, depth=2, pvar=0.4, py=True):
     f, n = rng.choice([('f', 1), ('g', 2), ('f', 2)] + ([('.', 2)] if py else []))
     return ['f', f, [rand_open(rng, vars_, depth - 1, pvar, py) for _ in range(n)]]
 
-def gen_script(rng):
-    """a few rule predicates; bodies call fact predicates, '=' and earlier rule predicates"""
+DB_BUILTINS = ('assertz', 'asserta', 'retract', 'retractall')
+
+def gen_db_goal(rng, vs, body):
+    """a database builtin called from a clause body: its argument is a literal name(args) over the clause variables (mostly),
+    an atom, a variable bound to such a term by a preceding '=' goal, or (rarely) an unbound variable / a number"""
+    b = rng.choice(['assertz', 'assertz', 'asserta', 'retract', 'retract', 'retractall'])
+    name, ar = rng.choice(FACT_PREDS)
+    t = ['f', name, [rand_open(rng, vs, 1, 0.65, py=False) for _ in range(ar)]] if ar else ['a', name]
+    r = rng.random()
+    if r < 0.12 and vs:
+        g = ['v', rng.choice(vs)]
+        body.append(['=', [g, t]])
+        body.append([b, [g]])
+    elif r < 0.16 and vs:
+        body.append([b, [['v', rng.choice(vs)]]])
+    elif r < 0.18:
+        body.append([b, [['i', 7]]])
+    else:
+        body.append([b, [t]])
+
+def gen_script(rng, writes=False):
+    """a few rule predicates; bodies call fact predicates, '=' and earlier rule predicates, and (writes) the database
+    builtins asserta / assertz / retract / retractall"""
     preds = []
+    pw = rng.choice([0.15, 0.3, 0.45]) if writes else 0.0
     k = rng.choice([1, 2, 2, 3, 4])
     chosen = sorted(rng.sample(range(len(RULE_PREDS)), k))
     for idx in chosen:
@@ -670,7 +739,9 @@ def gen_script(rng):
             body = []
             for _ in range(rng.choice([0, 1, 1, 2, 2, 3])):
                 r = rng.random()
-                if r < 0.15:
+                if rng.random() < pw:
+                    gen_db_goal(rng, vs, body)
+                elif r < 0.15:
                     body.append(['=', [rand_open(rng, vs, 1, 0.6, py=False), rand_open(rng, vs, 1, 0.5, py=False)]])
                 else:
                     cands = list(PURE_PREDS) + [RULE_PREDS[j] for j in range(idx)]
@@ -699,6 +770,13 @@ def gen_history(rng, case, eid, nops, base_facts):
         return [rand_open(rng, vs, 2, 0.35) for _ in range(ar)]
     def query_goal():
         have = sorted(k for k, c in nfacts.items() if c > 0)
+        if case.get('writes') and rng.random() < 0.18:
+            # a database builtin as a query of its own: retract(p(X)) can be suspended between two removals
+            b = rng.choice(['retract', 'retract', 'retract', 'assertz', 'asserta', 'retractall'])
+            name, ar = rng.choice(have) if have and rng.random() < 0.7 else rng.choice(FACT_PREDS)
+            vs = fresh(max(1, ar))
+            t = ['f', name, [rand_open(rng, vs, 1, 0.7) for _ in range(ar)]] if ar else ['a', name]
+            return b, [t], vs
         if have and rng.random() < 0.5:
             name, ar = rng.choice(have)
         else:
@@ -749,6 +827,10 @@ def gen_history(rng, case, eid, nops, base_facts):
             ops.append(['start', q, name, args])
             live[q] = vs
             est[q] = nfacts.get((name, len(args)), 0) + (2 if name in rule_names else 0)
+            if name in DB_BUILTINS:
+                t = args[0]
+                key = (t[1], len(t[2]) if t[0] == 'f' else 0)
+                est[q] = nfacts.get(key, 0) if name == 'retract' else 1
         elif r < 0.88:
             more = [q for q in live if est.get(q, 0) > 0]
             q = rng.choice(more) if more and rng.random() < 0.75 else rng.choice(list(live))
@@ -787,7 +869,9 @@ def gen_schedule(rng, lens):
 
 def gen_case(rng, big=False):
     neng = rng.choice([2, 2, 3])
-    case = {'neng': neng, 'scripts': [gen_script(rng) for _ in range(rng.choice([1, 2, 2, 3]))]}
+    writes = rng.random() < 0.5
+    case = {'neng': neng, 'writes': writes,
+            'scripts': [gen_script(rng, writes and rng.random() < 0.8) for _ in range(rng.choice([1, 2, 2, 3]))]}
     shared_keys = rng.sample(FACT_PREDS, rng.choice([2, 3, 4]))
     hist = []
     for e in range(neng):
@@ -858,6 +942,39 @@ def builtin_corpus():
             if k < len(h):
                 sched.append(e)
     L.append({'neng': 2, 'scripts': [s_old, s_new], 'hist': [h0, h1], 'sched': sched})
+    def rr(*hs):
+        sched = []
+        for k in range(max(len(h) for h in hs)):
+            for e, h in enumerate(hs):
+                if k < len(h):
+                    sched.append(e)
+        return sched
+    # clause bodies that write the fact store (Coq: C04_nonvacuous_footprint): w(X) :- p(X), assertz(q(X)), retract(q(c)).
+    # the same script in both engines, other facts; in engine 0 a reader of p/1 is suspended between the writer's steps
+    wscript = [['w', 1, [[[v(0)], [['p', [v(0)]], ['assertz', [f('q', v(0))]], ['retract', [f('q', a('c'))]]]]]]]
+    h0 = [['assert', True, 'p', [a('a')], 0], ['assert', True, 'p', [a('b')], 1], ['assert', True, 'q', [a('c')], 2],
+          ['assert', True, 'q', [a('c')], 0], ['load', True, 0], ['start', 0, 'p', [v(0)]], ['start', 1, 'w', [v(1)]],
+          ['next', 1], ['next', 0], ['next', 1], ['next', 0], ['next', 1], ['next', 0], ['next', 1],
+          ['start', 2, 'q', [v(2)]], ['drain', 2]]
+    h1 = [['assert', True, 'p', [a('z')], 0], ['assert', False, 'q', [a('c')], 1], ['load', True, 0], ['start', 0, 'w', [v(0)]],
+          ['next', 0], ['peek', [v(0)]], ['start', 1, 'q', [v(1)]], ['drain', 1], ['next', 0], ['start', 1, 'q', [v(1)]], ['drain', 1]]
+    L.append({'neng': 2, 'writes': True, 'scripts': [wscript], 'hist': [h0, h1], 'sched': rr(h0, h1)})
+    # the witness of C04_disjoint_queries_alone_writes_refuted: a reader of p/1 that has not been resumed yet next to
+    # assertz(p(b)) run as a query sees a, b; the same reader alone (engine 1) sees a
+    h0 = [['assert', True, 'p', [a('a')], 0], ['start', 0, 'p', [v(0)]], ['start', 1, 'assertz', [f('p', a('b'))]],
+          ['next', 1], ['next', 0], ['next', 0], ['next', 0]]
+    h1 = [['assert', True, 'p', [a('a')], 0], ['start', 0, 'p', [v(0)]], ['next', 0], ['next', 0], ['next', 0]]
+    L.append({'neng': 2, 'writes': True, 'scripts': [], 'hist': [h0, h1], 'sched': rr(h0, h1)})
+    # a suspended retract (query on the builtin) loses no concurrent update: removals by another generator and an assert of
+    # the caller between its steps; retract by identity in the current list
+    i_ = lambda n: ['i', n]
+    h0 = [['assert', True, 'p', [i_(1)], 0], ['assert', True, 'p', [i_(2)], 0], ['assert', True, 'p', [i_(2)], 0], ['assert', True, 'p', [i_(3)], 0],
+          ['start', 0, 'retract', [f('p', v(0))]], ['next', 0], ['peek', [v(0)]], ['assert', True, 'p', [i_(4)], 1],
+          ['start', 1, 'retract', [f('p', i_(2))]], ['next', 1], ['next', 0], ['peek', [v(0)]], ['next', 1], ['next', 0], ['next', 0],
+          ['start', 2, 'p', [v(2)]], ['drain', 2]]
+    h1 = [['assert', True, 'p', [f('f', v(0))], 0], ['start', 0, 'asserta', [f('p', f('f', v(1)))]], ['start', 1, 'retractall', [f('p', f('f', a('a')))]],
+          ['next', 0], ['start', 2, 'p', [v(2)]], ['next', 2], ['next', 1], ['next', 2], ['next', 2], ['start', 2, 'p', [v(3)]], ['drain', 2]]
+    L.append({'neng': 2, 'writes': True, 'scripts': [], 'hist': [h0, h1], 'sched': rr(h0, h1)})
     return L
 
 # ------------------------------------------------------------------ reporting
@@ -953,8 +1070,18 @@ def shrink(case):
 def distribution(cases, obs):
     d = {'engines': {}, 'ops': {}, 'history_len': {}, 'max_suspended': {}, 'answers_per_next': {'ans': 0, 'done': 0},
          'raised': 0, 'scripts': {}, 'same_engine_oracle_runs': 0, 'same_engine_oracle_steps': 0,
-         'model_not_comparable': MODEL_SKIPPED[0]}
+         'model_not_comparable': MODEL_SKIPPED[0], 'model_cyclic_match_skipped': MODEL_CYCLIC[0],
+         'cases_with_writing_bodies_loaded': 0, 'db_goals_in_loaded_bodies': 0, 'queries_on_db_builtins': 0}
     for c, o in zip(cases, obs):
+        nw = 0
+        for h in c['hist']:
+            for op in h:
+                if op[0] == 'load':
+                    nw += sum(1 for _, _, cls in c['scripts'][op[2]] for _, body in cls for g in body if g[0] in DB_BUILTINS)
+                if op[0] == 'start' and op[2] in DB_BUILTINS:
+                    d['queries_on_db_builtins'] += 1
+        d['db_goals_in_loaded_bodies'] += nw
+        d['cases_with_writing_bodies_loaded'] += 1 if nw else 0
         if isinstance(o, dict):
             d['same_engine_oracle_runs'] += len(o.get('slots_alone', []))
             d['same_engine_oracle_steps'] += sum(len(x[2]) for x in o.get('slots_alone', []))
